@@ -109,6 +109,15 @@ CHECKS["C18"] = dict(cat="model_checking", ref="4 C18", engine="tlc+gate-schedul
          "are recorded, not failed. Trusted: TLC, Go race detector, harness scheduler.",
     technique="TLA+ spec of sync x readers (Api.tla) + TLC exhaustive + gate-driven schedule replay + race-detector load run + TLC validation")
 
+CHECKS["C19"] = dict(cat="model_checking", ref="4 C19", engine="tlc-history-enumeration",
+    text="VersionLock.tla states the property over the ghost history (which build synced which height) and the intended start-up check over what the database "
+         "contains; TLC proves `refuses <=> MustRefuse` for every history of <= 3 (thorough 4) sessions x <= 3 blocks x all fork tables and mirrors the code "
+         "statement by statement to enumerate every difference class; every exported history (plus sampled and seeded longer ones) is realised with real "
+         "sessions (node.NewPegnetd, InsertSynced in a transaction, per-session sync version / fork table) and the observed refusals are re-decided by TLC.",
+    note="Conformance domain: pre-tracking sessions form a prefix of the history; non-trivial forks at heights >= 1. Trusted: TLC, the session realisation in "
+         "harness/cmd/c19.",
+    technique="TLA+ spec (VersionLock.tla) + TLC exhaustive history enumeration + replay of every history into the real start-up check + TLC validation")
+
 PENDING = {}
 
 def main():
